@@ -1,5 +1,5 @@
 (* C18 over the reals: every index function places a projected point in the cell whose extent contains it,
-   or nowhere.  Areas of any orientation (xmin <> xmax, ymin <> ymax), except ll2cr (north-up only, see C08). *)
+   or nowhere.  Areas of any orientation (xmin <> xmax, ymin <> ymax), ll2cr included (ch = -pixel_size_y). *)
 From Coq Require Import Reals ZArith Lra Lia Bool.
 From Flocq Require Import Zaux Raux Generic_fmt Round_NE.
 From PR Require Import Base.Num Base.RNum Model.Grid Model.CellIndex Proofs.Grid_real Proofs.C18_axis.
@@ -310,32 +310,24 @@ Proof.
 Qed.
 
 (* ---------------------------------------------------------------- ewa ll2cr *)
-Definition north_up (a : area R) : Prop := ymin a < ymax a.
-
 Lemma big_R : big_1e30 RO = 1000000000000000019884624838656.
 Proof. unfold big_1e30. cbn. lra. Qed.
-
-Lemma north_up_dy a : wf_area a -> north_up a -> 0 < dyR a.
-Proof.
-  intros (_ & Hh & _) N. pose proof (IZR_pos_of _ Hh). unfold dyR, north_up in *.
-  apply Rdiv_lt_0_compat; lra.
-Qed.
 
 Lemma ll_col_eq a x : wf_area a -> ll_col RO a x = arr_of_proj_x RO a x.
 Proof. reflexivity. Qed.
 
-Lemma ll_row_eq a y : wf_area a -> north_up a -> ll_row RO a y = arr_of_proj_y RO a y.
+Lemma ll_row_eq a y : wf_area a -> ll_row RO a y = arr_of_proj_y RO a y.
 Proof.
-  intros H N. pose proof (north_up_dy a H N) as D.
-  unfold ll_row, ll_oy, ll_ch, arr_of_proj_y, yscale, upl_y. rewrite psy_eq. cbn.
-  rewrite (Rabs_pos_eq (dyR a)) by lra. field. lra.
+  intros H. pose proof (dy_nonzero a H) as D.
+  first [ reflexivity
+        | unfold ll_row, ll_oy, ll_ch, arr_of_proj_y, yscale, upl_y; rewrite ?psy_eq; cbn; field; lra ].
 Qed.
 
-Lemma ll2cr_point_R a fill x y : wf_area a -> north_up a -> x < big_1e30 RO ->
+Lemma ll2cr_point_R a fill x y : wf_area a -> x < big_1e30 RO ->
   ll2cr_point RO a fill x y =
   (arr_of_proj_x RO a x, arr_of_proj_y RO a y, ll_in_grid RO a (arr_of_proj_x RO a x) (arr_of_proj_y RO a y)).
 Proof.
-  intros H N Hx. unfold ll2cr_point. cbn [leb RO].
+  intros H Hx. unfold ll2cr_point. cbn [leb RO].
   replace (Rleb (big_1e30 RO) x) with false by (symmetry; apply Rleb_false; exact Hx).
   rewrite ll_col_eq, ll_row_eq by assumption. reflexivity.
 Qed.
@@ -347,12 +339,12 @@ Proof.
 Qed.
 
 (* interior of a cell: the fractional indices round to that cell and the point is counted *)
-Lemma ll_cell a fill x y r c : wf_area a -> north_up a -> x < big_1e30 RO ->
+Lemma ll_cell a fill x y r c : wf_area a -> x < big_1e30 RO ->
   valid_cell a r c -> in_cell_open a r c x y ->
   exists cf rf, ll2cr_point RO a fill x y = (cf, rf, true) /\ ZnearestE cf = c /\ ZnearestE rf = r
                 /\ Rabs (cf - IZR c) < / 2 /\ Rabs (rf - IZR r) < / 2.
 Proof.
-  intros H N Hx [Vr Vc] Hin. rewrite ll2cr_point_R by assumption.
+  intros H Hx [Vr Vc] Hin. rewrite ll2cr_point_R by assumption.
   apply in_cell_open_frac in Hin; [| exact H]. destruct Hin as [Hu Hv].
   rewrite area_col_expr, area_row_expr by exact H.
   exists (ufrac a x - / 2), (vfrac a y - / 2).
@@ -364,11 +356,11 @@ Proof.
 Qed.
 
 (* strictly outside the extent: the fractional index is more than half a pixel away from every pixel centre of the grid *)
-Lemma ll_outside a fill x y : wf_area a -> north_up a -> x < big_1e30 RO -> ~ in_extent a x y ->
+Lemma ll_outside a fill x y : wf_area a -> x < big_1e30 RO -> ~ in_extent a x y ->
   exists cf rf b, ll2cr_point RO a fill x y = (cf, rf, b) /\
     (cf < - / 2 \/ IZR (width a) - / 2 < cf \/ rf < - / 2 \/ IZR (height a) - / 2 < rf).
 Proof.
-  intros H N Hx Hout. rewrite ll2cr_point_R by assumption. rewrite in_extent_frac in Hout by exact H.
+  intros H Hx Hout. rewrite ll2cr_point_R by assumption. rewrite in_extent_frac in Hout by exact H.
   rewrite area_col_expr, area_row_expr by exact H.
   eexists _, _, _. split; [reflexivity |].
   destruct (Rlt_dec (ufrac a x) 0); [left; lra |].
@@ -379,10 +371,10 @@ Proof.
 Qed.
 
 (* points in the extent are counted in swath_points_in_grid (the count has a margin of 1.5 pixels) *)
-Lemma ll_counted a fill x y : wf_area a -> north_up a -> x < big_1e30 RO -> in_extent a x y ->
+Lemma ll_counted a fill x y : wf_area a -> x < big_1e30 RO -> in_extent a x y ->
   snd (ll2cr_point RO a fill x y) = true.
 Proof.
-  intros H N Hx Hin. rewrite ll2cr_point_R by assumption. rewrite in_extent_frac in Hin by exact H.
+  intros H Hx Hin. rewrite ll2cr_point_R by assumption. rewrite in_extent_frac in Hin by exact H.
   cbn [snd]. rewrite area_col_expr, area_row_expr by exact H. apply ll_in_grid_true. lra.
 Qed.
 
